@@ -45,7 +45,10 @@ func newInterface(out *cdc.Outcome) *TestRuntimeInterface {
 }
 
 // Run executes a script with no arguments.
-func Run(src string, mode Mode) (out *cdc.Outcome) {
+func Run(src string, mode Mode) (out *cdc.Outcome) { return RunDepth(src, mode, 0) }
+
+// RunDepth: like Run with runtime.Config.StackDepthLimit = depthLimit (0 = the runtime's default).
+func RunDepth(src string, mode Mode, depthLimit uint64) (out *cdc.Outcome) {
 	out = &cdc.Outcome{}
 	defer func() {
 		if r := recover(); r != nil {
@@ -53,7 +56,9 @@ func Run(src string, mode Mode) (out *cdc.Outcome) {
 			out.Class, out.Kind = "crash", "escaped-panic"
 		}
 	}()
-	rt := NewTestRuntime()
+	config := DefaultTestInterpreterConfig
+	config.StackDepthLimit = depthLimit
+	rt := NewTestRuntimeWithConfig(config)
 	ctx := runtime.Context{
 		Interface:        newInterface(out),
 		Location:         common.ScriptLocation{1},
